@@ -688,8 +688,9 @@ func pump(c *websocket.Conn, got *[]rdMsg, each chan int, end chan error) {
 	}
 }
 
-// runSession: the real Dialer against the real Upgrader, three buffer combinations. cs.First says who sends data
-// first once the handshake is done:
+// runSession: the real Dialer against the real Upgrader, four buffer combinations - the fourth with ReadBufferSize
+// below the largest control payload on both ends (any size is the application's right) and pings of 0..125 bytes
+// in front of every message, in both directions. cs.First says who sends data first once the handshake is done:
 //
 //	client  the server writes when the client's first message has arrived, then both ends write and read
 //	        concurrently; the client closes when it has everything the server sent
@@ -701,22 +702,38 @@ func runSession(c *rp.Ctx, i int, cs *hsCase) rp.Result {
 	addr := srv.Listener.Addr().String()
 	serverFirst := cs.First == "server"
 	var sess []int
-	for combo := 0; combo < 3; combo++ {
-		cbuf := []int{0, 256, 1024}[combo]
-		sbuf := []int{0, 1024, 256}[combo]
-		clientScript := mkSteps([]string{"pat", "rnd", "pat"}[combo],
+	for combo := 0; combo < 4; combo++ {
+		cbuf := []int{0, 256, 1024, 0}[combo]
+		sbuf := []int{0, 1024, 256, 0}[combo]
+		crbuf, srbuf := cbuf, sbuf
+		var cPings, sPings []int // payload lengths of the pings in front of the client's / the server's messages
+		if combo == 3 {
+			crbuf, srbuf = 100, 16
+			cPings, sPings = []int{125, 17, 0, 101}, []int{101, 125, 16, 0}
+		}
+		pingBefore := func(conn *websocket.Conn, lens []int, k int) error {
+			if len(lens) == 0 {
+				return nil
+			}
+			n := lens[k%len(lens)]
+			if err := conn.WriteControl(websocket.PingMessage, ctlPayload(n, k), time.Now().Add(ioWait)); err != nil {
+				return fmt.Errorf("WriteControl(ping, %d bytes): %v", n, err)
+			}
+			return nil
+		}
+		clientScript := mkSteps([]string{"pat", "rnd", "pat", "rnd"}[combo],
 			step{API: "WM", T: 1, Size: 5, Parts: [][]int{{5, 1}}},
 			step{API: "NW", T: 2, Size: 300, Parts: [][]int{{200, 1}, {100, 1}}},
 			step{API: "JS", T: 1, Size: 131, Parts: [][]int{{131, 1}}},
 			step{API: "WM", T: 2, Size: 70000, Parts: [][]int{{70000, 1}}})
-		serverScript := mkSteps([]string{"rnd", "pat", "pat"}[combo],
+		serverScript := mkSteps([]string{"rnd", "pat", "pat", "pat"}[combo],
 			step{API: "WM", T: 2, Size: 126, Parts: [][]int{{126, 1}}},
 			step{API: "PM", T: 1, Size: 65536, Parts: [][]int{{65536, 1}}},
 			step{API: "WS", T: 1, Size: 1000, Parts: [][]int{{1, 1}, {499, 1}, {500, 1}}},
 			step{API: "RF", T: 2, Size: 5000, Parts: [][]int{{5000, 1}}})
 		if serverFirst {
 			// small: response and messages fit the client's first Read (4096 byte reader) or are cut by it (256, 1024)
-			serverScript = mkSteps([]string{"rnd", "pat", "pat"}[combo],
+			serverScript = mkSteps([]string{"rnd", "pat", "pat", "pat"}[combo],
 				step{API: "WM", T: 1, Size: 13, Parts: [][]int{{13, 1}}},
 				step{API: "WM", T: 2, Size: 0, Parts: [][]int{{0, 1}}},
 				step{API: "PM", T: 2, Size: 126, Parts: [][]int{{126, 1}}},
@@ -725,8 +742,8 @@ func runSession(c *rp.Ctx, i int, cs *hsCase) rp.Result {
 				step{API: "RF", T: 2, Size: 90, Parts: [][]int{{90, 1}}})
 		}
 		var sGot []rdMsg
-		job := &srvJob{up: websocket.Upgrader{ReadBufferSize: sbuf, WriteBufferSize: sbuf, EnableCompression: cs.Server.Compress,
-			CheckOrigin: policyFunc(cs.Server.Policy)}, level: []int{1, 9, -2}[combo]}
+		job := &srvJob{up: websocket.Upgrader{ReadBufferSize: srbuf, WriteBufferSize: sbuf, EnableCompression: cs.Server.Compress,
+			CheckOrigin: policyFunc(cs.Server.Policy)}, level: []int{1, 9, -2, 1}[combo]}
 		if serverFirst {
 			job.spoke = make(chan struct{})
 		}
@@ -745,6 +762,9 @@ func runSession(c *rp.Ctx, i int, cs *hsCase) rp.Result {
 			}
 			for k := range serverScript.Steps {
 				st := &serverScript.Steps[k]
+				if err := pingBefore(sc, sPings, k); err != nil {
+					return fmt.Errorf("server, before message %d: %v", k+1, err)
+				}
 				if err := writeStep(sc, st, payload(serverScript, st, c.Seed), c.Seed); err != nil {
 					return fmt.Errorf("server message %d (%s, %d bytes): %v", k+1, st.API, st.Size, err)
 				}
@@ -761,7 +781,7 @@ func runSession(c *rp.Ctx, i int, cs *hsCase) rp.Result {
 		}
 		path := addJob(job)
 		var rc *recConn
-		d := websocket.Dialer{EnableCompression: cs.Client.Compress, ReadBufferSize: cbuf, WriteBufferSize: cbuf, HandshakeTimeout: 2 * ioWait,
+		d := websocket.Dialer{EnableCompression: cs.Client.Compress, ReadBufferSize: crbuf, WriteBufferSize: cbuf, HandshakeTimeout: 2 * ioWait,
 			NetDial: func(network, a string) (net.Conn, error) {
 				nc, err := net.Dial(network, a)
 				if err != nil {
@@ -780,8 +800,8 @@ func runSession(c *rp.Ctx, i int, cs *hsCase) rp.Result {
 		case "other":
 			hdr.Set("Origin", "http://evil.example")
 		}
-		desc := fmt.Sprintf("Dialer(compression %v, origin %s, buffers %d) <-> Upgrader(compression %v, origin policy %s, buffers %d), %s speaks first",
-			cs.Client.Compress, cs.Client.Origin, cbuf, cs.Server.Compress, cs.Server.Policy, sbuf, map[bool]string{true: "server", false: "client"}[serverFirst])
+		desc := fmt.Sprintf("Dialer(compression %v, origin %s, read buffer %d, write buffer %d) <-> Upgrader(compression %v, origin policy %s, read buffer %d, write buffer %d), %s speaks first, pings %v / %v",
+			cs.Client.Compress, cs.Client.Origin, crbuf, cbuf, cs.Server.Compress, cs.Server.Policy, srbuf, sbuf, map[bool]string{true: "server", false: "client"}[serverFirst], cPings, sPings)
 		conn, resp, err := d.Dial("ws://"+addr+path, hdr)
 		if !cs.Up {
 			dropJob(path)
@@ -798,7 +818,7 @@ func runSession(c *rp.Ctx, i int, cs *hsCase) rp.Result {
 			dropJob(path)
 			return rp.Fail(i, "library client and library server do not connect (%v): %s", err, desc)
 		}
-		conn.SetCompressionLevel([]int{9, 1, -2}[combo])
+		conn.SetCompressionLevel([]int{9, 1, -2, 1}[combo])
 		var cGot []rdMsg
 		each, end := make(chan int, 64), make(chan error, 1)
 		go pump(conn, &cGot, each, end)
@@ -809,6 +829,9 @@ func runSession(c *rp.Ctx, i int, cs *hsCase) rp.Result {
 		}
 		for k := range clientScript.Steps {
 			st := &clientScript.Steps[k]
+			if err := pingBefore(conn, cPings, k); err != nil {
+				return fail("client, before message %d: %v", k+1, err)
+			}
 			if err := writeStep(conn, st, payload(clientScript, st, c.Seed), c.Seed); err != nil {
 				return fail("client message %d (%s, %d bytes): %v", k+1, st.API, st.Size, err)
 			}
